@@ -54,7 +54,7 @@ func ExtractTypeNameMap(v interface{}) (map[string]reflect.Type, map[string]stri
 	value := reflect.ValueOf(v)
 	typMap := make(map[string]reflect.Type)
 	nameMap := make(map[string]string)
-	visited := make(map[uintptr]bool)
+	visited := make(map[visitKey]bool)
 	ExtractValue(value, func(v reflect.Value) bool {
 		if !v.IsValid() {
 			return false
@@ -62,17 +62,14 @@ func ExtractTypeNameMap(v interface{}) (map[string]reflect.Type, map[string]stri
 		typ := v.Type()
 		name := TypeName(typ)
 		if _, ok := typMap[name]; ok {
-			// another value of a known type holds nothing new, unless its elements are
-			// interfaces, whose dynamic types differ from value to value
-			if !holdsInterface(typ) || v.Len() == 0 || visited[v.Pointer()] {
+			// another value of a known type holds nothing new, unless interface slots can be
+			// reached from it, whose dynamic types differ from value to value
+			if !reachesInterface(typ, make(map[reflect.Type]bool)) {
 				return false
 			}
-			visited[v.Pointer()] = true
-			return true
+			return firstVisit(v, visited)
 		}
-		if holdsInterface(typ) && v.Len() > 0 {
-			visited[v.Pointer()] = true
-		}
+		firstVisit(v, visited)
 
 		typMap[name] = typ
 		nameMap[name] = name
@@ -128,15 +125,56 @@ func widerListType(a, b reflect.Type) bool {
 	return a.String() < b.String()
 }
 
-// holdsInterface check whether typ is a slice or map with interface elements or keys
-func holdsInterface(typ reflect.Type) bool {
+// reachesInterface check whether a value of typ can hold an interface slot at any depth
+func reachesInterface(typ reflect.Type, seen map[reflect.Type]bool) bool {
 	switch typ.Kind() {
-	case reflect.Slice:
-		return typ.Elem().Kind() == reflect.Interface
+	case reflect.Interface:
+		return true
+	case reflect.Ptr, reflect.Slice, reflect.Array:
+		return reachesInterface(typ.Elem(), seen)
 	case reflect.Map:
-		return typ.Elem().Kind() == reflect.Interface || typ.Key().Kind() == reflect.Interface
+		return reachesInterface(typ.Key(), seen) || reachesInterface(typ.Elem(), seen)
+	case reflect.Struct:
+		if seen[typ] {
+			return false
+		}
+		seen[typ] = true
+		for i := 0; i < typ.NumField(); i++ {
+			if reachesInterface(typ.Field(i).Type, seen) {
+				return true
+			}
+		}
 	}
 	return false
+}
+
+type visitKey struct {
+	addr uintptr
+	typ  reflect.Type
+}
+
+// firstVisit record the address of a struct, slice or map value and report whether it is new,
+// so that a cyclic value is walked once
+func firstVisit(v reflect.Value, visited map[visitKey]bool) bool {
+	var addr uintptr
+	switch v.Kind() {
+	case reflect.Slice, reflect.Map:
+		addr = v.Pointer()
+	case reflect.Struct:
+		if v.CanAddr() {
+			addr = v.UnsafeAddr()
+		}
+	}
+	if addr == 0 {
+		return true
+	}
+	// a struct and its first field share their address: the type tells them apart
+	key := visitKey{addr, v.Type()}
+	if visited[key] {
+		return false
+	}
+	visited[key] = true
+	return true
 }
 
 // remove pointer '*' and right bracket ']'
